@@ -44,6 +44,8 @@ def parseOp (pool : List ObjRef) (w : String) : Option Op :=
   | ["al", n, v] => do pure (.addLocal (← n.toNat?) (← parseVal v))
   | ["lc", d, s] => do pure (.letCs (← d.toNat?) (← s.toNat?))
   | ["lt", d, t] => do pure (.letTok (← d.toNat?) (← t.toNat?))
+  | ["gl", d, s] => do pure (.gletCs (← d.toNat?) (← s.toNat?))
+  | ["gt", d, t] => do pure (.gletTok (← d.toNat?) (← t.toNat?))
   | ["sc", ch, k] => do
       let k ← k.toNat?
       if k < 16 then pure (.setCat (← ch.toNat?) k) else none
